@@ -489,6 +489,16 @@ def main():
         elif st == "FAILED":
             # CBMC's float NaN checks are not Rust panics: producing NaN is a defined IEEE result
             labels = [l for l in dict.fromkeys(r["failed"]) if not IGNORED_CHECK.match(l)]
+            # "harness.*" labels are preconditions of the harness itself (e.g. the capacity a
+            # constructor hands out): if one fails the harness no longer fits the code and the
+            # check cannot decide - that is not a violation of the property
+            hl = [l for l in labels if l.startswith("harness.")]
+            if hl:
+                undecided.append((h["name"], "harness precondition no longer holds: " + "; ".join(hl)))
+                entry["status"] = "HARNESS-PRECONDITION"
+                entry["failed_checks"] = labels
+                samples.append(entry)
+                continue
             if not labels:
                 if r["cover_total"] > 0 and r["cover_sat"] < r["cover_total"]:
                     undecided.append((h["name"], "vacuous: cover witness unreachable"))
